@@ -221,7 +221,7 @@ def scen_valid(env, gmax, first=None, with_override=False, small=False, g0max=No
 
 INVALID = ['unknown-name', 'unknown-not', 'foreign-block', 'event-dest-cblock', 'filter-wrong-kind', 'missing-input',
            'wrong-shape-not', 'wrong-shape-override', 'duplicate-name', 'connect-twice', 'event-unknown-dest',
-           'reserved-underscore', 'double-underscore-not', 'multiple-as-single', 'no-inputs']
+           'reserved-underscore', 'double-underscore-not', 'multiple-as-single', 'single-as-group', 'no-inputs']
 
 
 def scen_invalid(env, which):
@@ -262,7 +262,13 @@ def scen_invalid(env, which):
         elif which == 'wrong-shape-not':
             edzed.Not('c').connect(s0, s0)
         elif which == 'wrong-shape-override':
-            edzed.Override('c').connect(input=[s0], override=s0)
+            # a group of ANY size (0..3, list or tuple) where a single input is expected, on either input
+            n = env.choose(4, 'group_size')
+            grp = [s0] * n if env.choose(2, 'group_form') else tuple([s0] * n)
+            if env.choose(2, 'which_input'):
+                edzed.Override('c').connect(input=grp, override=s0)
+            else:
+                edzed.Override('c').connect(input=s0, override=grp)
         elif which == 'duplicate-name':
             edzed.Input('s0', initdef=1)
         elif which == 'connect-twice':
@@ -275,6 +281,18 @@ def scen_invalid(env, which):
             edzed.And('c').connect('_not__x')
         elif which == 'multiple-as-single':
             edzed.And('c').connect([s0, s0])
+        elif which == 'single-as-group':
+            # a user-defined block (docs/new_cblocks.rst) demanding a group of a given size / a single input
+            class Custom(edzed.CBlock):
+                def calc_output(self):
+                    return 0
+
+                def start(self):
+                    super().start()
+                    self.check_signature({'a': None, 'g': [1, 2]})
+            k = env.choose(6, 'shape')
+            a, g = [(s0, s0), ([s0], [s0]), ([], [s0]), (s0, []), (s0, [s0, s0, s0]), ((), (s0, s0))][k]
+            Custom('c').connect(a=a, g=g)
         elif which == 'no-inputs':
             edzed.Not('c').connect()
     try:
